@@ -107,23 +107,67 @@ pub struct TxGen {
     pub live_after: std::collections::HashMap<usize, Vec<(usize, usize)>>,
     pub nscripts: usize,
     pub max_txs: usize,
+    /// probability that a transaction of a block of ANOTHER branch whose inputs are available is mined again
+    /// (0 = never: every transaction is in exactly one block of the world)
+    pub remine: f64,
+    /// per block: original tx id -> its copy on the chain ending in that block
+    pub remap_after: std::collections::HashMap<usize, std::collections::HashMap<usize, usize>>,
 }
 
 impl TxGen {
     pub fn new(nscripts: usize, max_txs: usize) -> Self {
         let mut live_after = std::collections::HashMap::new();
         live_after.insert(0usize, Vec::new());
-        TxGen { live_after, nscripts, max_txs }
+        TxGen { live_after, nscripts, max_txs, remine: 0.0, remap_after: std::collections::HashMap::new() }
     }
 
-    fn gen_block_txs(&mut self, chain: &SimChain, parent: usize, rng: &mut StdRng) -> (Vec<super::world::WTx>, Vec<(usize, usize)>) {
+    fn gen_block_txs(&mut self, chain: &SimChain, parent: usize, rng: &mut StdRng) -> (Vec<super::world::WTx>, Vec<(usize, usize)>, std::collections::HashMap<usize, usize>) {
         use super::world::{WCell, WTx};
         let mut live = self.live_after.get(&parent).cloned().unwrap_or_default();
+        let mut remap = self.remap_after.get(&parent).cloned().unwrap_or_default();
         let first_tx_id = chain.txs.len(); // cellbase gets this id, then the block's txs
-        let ntx = rng.gen_range(0..=self.max_txs);
-        let mut txs = Vec::new();
-        for k in 0..ntx {
-            let tid = first_tx_id + 1 + k;
+        let mut txs: Vec<WTx> = Vec::new();
+        if self.remine > 0.0 {
+            // transactions of blocks that are not on this chain, mined again here when their inputs are available
+            let on_chain: std::collections::HashSet<usize> = chain.chain_of(parent).into_iter().collect();
+            for t in chain.txs.iter() {
+                if txs.len() >= self.max_txs {
+                    break;
+                }
+                if t.index == 0 || t.twin_of.is_some() || on_chain.contains(&t.block) || remap.contains_key(&t.id) {
+                    continue;
+                }
+                let mapped: Option<Vec<(usize, usize)>> = t
+                    .ins
+                    .iter()
+                    .map(|(p, o)| {
+                        if *p < 1 {
+                            return None;
+                        }
+                        let p0 = (*p - 1) as usize;
+                        let pid = remap.get(&p0).cloned().unwrap_or(p0);
+                        if live.contains(&(pid, *o)) { Some((pid, *o)) } else { None }
+                    })
+                    .collect();
+                // (never at the very position of the original: the store could not tell the two apart, and neither
+                //  could the projection of its entries)
+                let same_pos = chain.blocks[t.block].num == chain.blocks[parent].num + 1 && t.index == 1 + txs.len();
+                if let (Some(ins), false) = (mapped, same_pos) {
+                    if rng.gen_bool(self.remine) {
+                        let tid = first_tx_id + 1 + txs.len();
+                        live.retain(|c| !ins.contains(c));
+                        for o in 0..t.view.outputs().len() {
+                            live.push((tid, o));
+                        }
+                        remap.insert(t.id, tid);
+                        txs.push(WTx { inputs: ins, outputs: vec![], same_as: Some(t.id) });
+                    }
+                }
+            }
+        }
+        let ntx = rng.gen_range(0..=self.max_txs.saturating_sub(txs.len()));
+        for _ in 0..ntx {
+            let tid = first_tx_id + 1 + txs.len();
             let nin = if live.is_empty() || rng.gen_bool(0.2) { 0 } else { rng.gen_range(1..=std::cmp::min(2, live.len())) };
             let mut inputs = Vec::new();
             for _ in 0..nin {
@@ -138,9 +182,9 @@ impl TxGen {
                 outputs.push(WCell { lock, type_, cap: rng.gen_range(100..1000), data_len: [0usize, 8, 9, 20][rng.gen_range(0..4)] });
                 live.push((tid, o));
             }
-            txs.push(WTx { inputs, outputs });
+            txs.push(WTx { inputs, outputs, same_as: None });
         }
-        (txs, live)
+        (txs, live, remap)
     }
 }
 
@@ -156,9 +200,10 @@ pub fn extend_with_txs(
     let mut cur = parent;
     for _ in 0..count {
         let (epoch, diff) = next_epoch(chain, cur, p, rng);
-        let (txs, live) = tg.gen_block_txs(chain, cur, rng);
+        let (txs, live, remap) = tg.gen_block_txs(chain, cur, rng);
         let id = chain.add_block(&WBlock { parent: cur as i64, diff, epoch, pow: true, root: true, txs });
         tg.live_after.insert(id, live);
+        tg.remap_after.insert(id, remap);
         cur = id;
     }
     cur
